@@ -17,6 +17,14 @@ Generator grammar over an INDEPENDENT reading of the schema XML (rt/c01_schema.p
       swapped, comma doubled / leading / trailing / dropped, '()' inserted, forbidden character inserted at every
       token boundary, stray '#', undeclared / wrongly valued Def, altered Def-expand, second unique tag).
 
+  Variation layer (so that no mutation exists only in its 'adjacent / same-case / no-blank' form): every delimiter
+      mutation is also run in six blank writings (blank_variant: after / before / around every delimiter, and blanks ONLY
+      between two adjacent delimiters and at the ends, e.g. 'Red, ,Blue', '( ,Blue', ' ,Red', '( )'); every third case of
+      every other clause is also run in one rotating blank writing; repeated tags are also generated as copies in another
+      path form / letter case / value letter case (respellings) and as triples copy-other-copy whose middle member sorts
+      between the copies in code-point order ('Label/ABC, Label/Abd, Label/abc'), in every order, inside groups and as
+      members of repeated groups; the unique / Def / Def-expand mutations are generated in every spelling of the tag name
+      with siblings between the copies.
   part "witness": fixed minimal inputs for the narrow clauses (defects seen at design time) and their neighbours.
 
 Every case is run with allow_placeholders False and True.  Oracle: the rule -> code table of the property text
@@ -862,6 +870,10 @@ def part_grammar(w, run, model, vocab, defs, chunk=0, nchunks=1):
                             # one level too deep, and unwrapped into the parent list
                             twin = None if kind == "event-context" else "temporal"
                             run.invalid(render(replace_in(tree, lst, lst[:i] + [[grp]] + lst[i + 1:])), "group", CL_GROUP, also=twin)
+                            # ... two levels too deep, and inside an ordinary group next to other members
+                            run.invalid(render(replace_in(tree, lst, lst[:i] + [[[grp]]] + lst[i + 1:])), "group", CL_GROUP, also=twin)
+                            run.invalid(render(replace_in(tree, lst, lst[:i] + [["Ellipse", grp, ["Item"]]] + lst[i + 1:])),
+                                        "group", CL_GROUP, also=twin)
                             run.invalid(render(replace_in(tree, lst, lst[:i] + list(grp) + lst[i + 1:])), "group", CL_GROUP, also=twin)
                             if kind == "event-context":
                                 for name in ("Event-context", "EVENT-CONTEXT", "Property/Organizational-property/Event-context"):
